@@ -150,6 +150,10 @@ class C07(CheckBase):
     def gen_command(self, rng, image):
         hostile = rng.chance(0.45)
         cmd = rng.choice(COMMANDS + ['bogus-command'] if hostile else COMMANDS)
+        if image.get('slots') and rng.chance(0.3):
+            # an MMB slot that is unformatted/invalid/unknown has a drive too: address its very first and last sectors
+            odd = sorted(k for k, v in image['slots'].items() if v[1] is None) or sorted(image['slots'])
+            return ['dump-sector', str(2 * int(rng.choice(odd))), rng.choice(['0', '0', '79', '1']), rng.choice(['0', '0', '9', '1'])]
         num = (lambda: rng.choice(HOSTILE_NUMS)) if hostile else (lambda: str(rng.choice([0, 0, 0, 1, 2, 3])))
         if image.get('surfaces'):
             s = dfswork.surface_of({'surface': image['surfaces'][0]})
